@@ -117,6 +117,8 @@ var kinds = []kind{
 	{name: "remove", share: shFresh, weight: 3},
 	{name: "remove-count", share: shFresh, weight: 1},
 	{name: "remove-if", share: shFresh, weight: 2},
+	{name: "remove-if-fe", share: shFresh, weight: 1}, // :from-end t :count 1: only the last match goes
+	{name: "remove-fe", share: shFresh, weight: 1},
 	{name: "remove-dup", share: shFresh, weight: 2},
 	{name: "member", share: shA, weight: 3},
 	{name: "mapcar", share: shFresh, weight: 3},
@@ -155,6 +157,7 @@ var kinds = []kind{
 	{name: "stable-sort", dest: true, share: shA, weight: 1},
 	{name: "delete", dest: true, share: shA, weight: 3},
 	{name: "delete-if", dest: true, share: shA, weight: 2},
+	{name: "delete-if-fe", dest: true, share: shA, weight: 1},
 	{name: "delete-dup", dest: true, share: shA, weight: 1},
 }
 
@@ -937,8 +940,12 @@ func sigName(op string) string {
 		return "nconc"
 	case "list*1":
 		return "list*"
-	case "remove-count":
+	case "remove-count", "remove-fe":
 		return "remove"
+	case "remove-if-fe":
+		return "remove-if"
+	case "delete-if-fe":
+		return "delete-if"
 	case "mapcar2":
 		return "mapcar"
 	case "sort<", "sort>", "sort-default", "sort-key":
@@ -1471,6 +1478,35 @@ func (w *world) planProper(op Op, kd *kind) (p planned) {
 			}
 			return false
 		}))
+	case "remove-fe":
+		it := item()
+		last := -1
+		for i, e := range a {
+			if e.sub == nil && e.v == it {
+				last = i
+			}
+		}
+		return setq(fmt.Sprintf("(remove %d %s :from-end t :count 1)", it, A), without(func(i int, _ el) bool { return i == last }))
+	case "remove-if-fe", "delete-if-fe":
+		fn := strings.TrimSuffix(op.Op, "-fe")
+		pred := []string{"evenp", "oddp"}[op.K%2]
+		match := func(e el) bool { return (e.v%2 == 0) == (pred == "evenp") }
+		if !a.allInts() {
+			pred = []string{"consp", "numberp"}[op.K%2]
+			match = func(e el) bool {
+				if pred == "consp" {
+					return e.isCons()
+				}
+				return e.sub == nil
+			}
+		}
+		last := -1
+		for i, e := range a {
+			if match(e) {
+				last = i
+			}
+		}
+		return setq(fmt.Sprintf("(%s '%s %s :from-end t :count 1)", fn, pred, A), without(func(i int, _ el) bool { return i == last }))
 	case "remove-if", "delete-if":
 		if a.allInts() {
 			pred := []string{"evenp", "oddp"}[op.K%2]
@@ -1782,7 +1818,7 @@ func (w *world) stepOp(op Op, phase string) {
 	if p.label != "" {
 		label = p.label
 	}
-	if kd.dest && p.dargs == nil && (op.Op == "delete" || op.Op == "delete-if" || op.Op == "delete-dup" || op.Op == "nreverse" || op.Op == "nbutlast") {
+	if kd.dest && p.dargs == nil && (op.Op == "delete" || op.Op == "delete-if" || op.Op == "delete-if-fe" || op.Op == "delete-dup" || op.Op == "nreverse" || op.Op == "nbutlast") {
 		p.dargs = []int{op.A}
 	}
 	w.prog = append(w.prog, src)
